@@ -13,11 +13,15 @@ Header arguments (5 tokens): <name> <comment> <extra> <mtime> <os>
          close result = ok | gzip | nobc | overflow
   c08.open <hdr x5> <xfl> <blocks>       the same for a writer that was never closed (Member.render only):
       -> "open <output length> <hasEOF> <member sizes>"
+  c08.abs <ops>          ops as in c01.write; the abstract script of the writer LTS (WriterAbs.absScript), in the
+      syntax of the c12.* commands:  w<k> | f0 | f1 | wt | c
+      -> "<abstract script>|<flush flags, one digit per Flush>|<seqBlocks of the abstract script>"
   c08.bound <n>  -> compressBound n
 -/
 import Hts.Drv.Util
 import Hts.Drv.C01
 import Hts.Model.Member
+import Hts.Model.WriterAbs
 namespace Hts.Drv.C08
 open Hts.Drv Hts.Model Hts.Model.Member
 
@@ -96,6 +100,16 @@ def handle (cmd : String) (args : List String) : Option String :=
     let payloads := idx.map (fun (i, (l, _)) => List.replicate l (UInt8.ofNat (i % 256)))
     let out := (render c h payloads).1
     some s!"open {out.length} {boolStr (hasEOF out)} {C01.joinOr ((memberSizes (out.length + 1) out).map toString)}"
+  | "c08.abs", [ops] => do
+    let ops ← (C01.splitList ops).mapM C01.parseWOp
+    let abs := WriterAbs.absScript ops
+    let showOp : WriterLTS.Op → String
+      | .write k => s!"w{k}"
+      | .flush b => if b then "f1" else "f0"
+      | .wait => "wt"
+      | .close => "c"
+    let flags := String.join (abs.filterMap fun o => match o with | .flush b => some (if b then "1" else "0") | _ => none)
+    some s!"{C01.joinOr (abs.map showOp)}|{if flags.isEmpty then "-" else flags}|{WriterLTS.seqBlocks abs false}"
   | "c08.bound", [n] => do
     some (toString (compressBound (← n.toNat?)))
   | _, _ => none
